@@ -58,12 +58,14 @@ def _gen_one(rng, seed):
     symvals = {}
     if rng.random() < 0.25 and gen.symbolise(prog, rng, "p"):
         symvals["p"] = rng.choice(["1/3", "1/2", "3/4", "1/10"])
-    for v in prog.pop("uninitialised", []):
+    uninit = prog.pop("uninitialised", [])
+    for v in uninit:
         symvals[v] = rng.choice(["7/3", "-11/5", "13/2"])      # a generic initial value for a variable that has none
     return {
         "kind": "ir-exec",
         "prog": prog,
         "symvals": symvals,
+        "uninitialised": list(uninit),
         "transform_categoricals": rng.random() < 0.25,
         "fp_iterations": rng.choice([0, 1, 2, 3, 5, 8, 100, 100, 100, 100, 100, 100]),
         "iterations": rng.choice([3, 4, 6, 8, 12]),
@@ -84,7 +86,7 @@ def _run_in_child(case):
         # a violation of known shape in an earlier program must not hide another one in a later program
         pick = None
         for i in bad:
-            if {_sig(p) for p in subs[i].get("problems", [])} != {(True, True, True)}:
+            if not all(_is_f13(p) for p in subs[i].get("problems", [])):
                 pick = i
                 break
         if pick is None and bad:
@@ -129,21 +131,20 @@ def run_case(case, extra=None):
 
 
 def _sig(p):
-    if p.get("downstream_of_f3") and p.get("source_guard_false"):
-        # computed, after guard exit, from a value that is out of type through known finding F3: same root cause
-        return (True, True, True)
-    if p.get("via_default") and p.get("source_guard_false") and p.get("no_initial_value") and not p.get("default_is_other_var"):
-        # a variable without initial value keeps its symbolic initial value <v>0 while the guard is false: the typer does not
-        # count the default of a loop-guard-implied condition as a use of the variable - same root cause as F3
-        return (True, True, True)
     return (bool(p.get("via_default")), bool(p.get("source_guard_false")), bool(p.get("default_is_other_var")))
 
 
+def _is_f13(p):
+    """known finding F13: while the loop guard is false a variable *without initial assignment* (or an intermediate version /
+    alias that receives its value) holds the variable's symbolic initial value, which no inferred type contains"""
+    return bool(p.get("source_guard_false") and (p.get("is_generic_initial_value") or p.get("downstream_of_f13")))
+
+
 def _lead(res):
-    """the problem that names the violation: one that does not have the shape of known finding F3, if there is any"""
+    """the problem that names the violation: one that does not have the shape of known finding F13, if there is any"""
     ps = res["problems"]
     for p in ps:
-        if _sig(p) != (True, True, True):
+        if not _is_f13(p):
             return p
     return ps[0]
 
@@ -157,10 +158,9 @@ def vclass(res):
 
 
 def finding_signature(res, case):
-    sigs = {_sig(p) for p in res.get("problems", [])}
     # a run counts as the known finding only if *every* reported out-of-type value has its shape
-    f3 = sigs == {(True, True, True)}
-    return {"only_alias_default_after_guard_exit": f3}
+    ps = res.get("problems", [])
+    return {"only_uninitialised_initial_value_after_guard_exit": bool(ps) and all(_is_f13(p) for p in ps)}
 
 
 def describe_violation(res):
